@@ -13,11 +13,11 @@
               Command.do passes the validated argument since fix 1c127f9: no exception left)
    (checks)   "check chain passed" means: every check_<p> of the MRO up to the first hook that returns True holds, and the
               generated limit check enforces every existing <p>_min/_max/_limits   -- C04_checks_respected,
-              C04_limits_respected_except_both_kinds (guard: not <p>_limits together with <p>_min/_max, refuted otherwise:
-              C04_refuted_limits_shadow = finding C18/limits-tuple-shadows-min-max)
+              C04_limits_respected (every layout, also <p>_limits together with <p>_min/_max since fix e1c174f; the
+              former guard and C04_refuted_limits_shadow are gone)
    (refused)  otherwise error report chosen by the first failing test, cache and subscribers untouched, driver not called
-              -- C04_change_refused, C04_do_refused_except_missing_colon (a do specifier without ':' is answered
-              InternalError: C04_refuted_do_specifier_without_colon), C04_refusal_class,
+              -- C04_change_refused, C04_do_refused (a do specifier without ':' is answered ProtocolError since fix
+              8821998; the former exception and C04_refuted_do_specifier_without_colon are gone), C04_refusal_class,
               C04_error_clean_except_unexportable (exception: a stored value that cannot be exported; repaired for
               absent optional members by fix 45926fd), C04_error_clean_exportable, C04_success_announced
    (history)  lifted over every request sequence from every cache whose values lie in their value sets
@@ -25,7 +25,7 @@
 From Coq Require Import ZArith NArith Bool List.
 Import ListNotations.
 Require Import FV.Gen.C04 FV.Base.F64 FV.Base.PyVal FV.C01.Model FV.C01.Lemmas.
-Require Import FV.C04.Model FV.C04.Lemmas FV.C04.LemmasHist FV.C04.Refuted.
+Require Import FV.C04.Model FV.C04.Lemmas FV.C04.LemmasHist.
 
 (* obligations on the facts regenerated from /repo (Gen/C04.v): the order of the tests in _setParameterValue /
    _execute_command / Command.do / the write wrapper / checkLimits, the export map, the error mapping of handle() *)
@@ -61,10 +61,10 @@ Proof.
   intros hook p v c H. split; [apply run_checks_prefix, H|apply run_checks_all, H].
 Qed.
 
-(* the generated limit check enforces every existing limit parameter (full statement: for all layouts; proved for all
-   layouts that do not combine <p>_limits with <p>_min/<p>_max) *)
-Theorem C04_limits_respected_except_both_kinds : forall pn v c,
-  limits_well_shaped pn c -> check_limits pn v c = Ok tt -> limits_respected pn v c.
+(* the generated limit check enforces every existing limit parameter, for all layouts (also <p>_limits together with
+   <p>_min/<p>_max), and refuses everything while <p>_min > <p>_max *)
+Theorem C04_limits_respected : forall pn v c,
+  check_limits pn v c = Ok tt -> limits_respected pn v c /\ not_inverted pn c.
 Proof. exact check_limits_respected. Qed.
 
 Theorem C04_limits_respected_int : forall pn z c, limits_respected pn (PInt z) c ->
@@ -148,11 +148,11 @@ Theorem C04_do_safe : forall E md c rq,
     c_export cm = Some en /\ arg_ok E cm (rq_data rq) w /\ o_drv o = [Call (c_name cm) w].
 Proof. intros E md c rq. exact (do_safe E md c rq). Qed.
 
-(* full statement: every refused do request gets NoSuchModule / NoSuchCommand / WrongType / RangeError; proved with the
-   exception of specifiers without ':' (first conjunct: they get InternalError, see Refuted.v) *)
-Theorem C04_do_refused_except_missing_colon : forall E md c rq,
+(* every refused do request gets ProtocolError (no ':' in the specifier) / NoSuchModule / NoSuchCommand / WrongType /
+   RangeError, and nothing is touched *)
+Theorem C04_do_refused : forall E md c rq,
   let o := handle_do E md c rq in
-  (rq_acc rq = None -> o = fail c EPy [] []) /\
+  (rq_acc rq = None -> o = fail c (ESecop ProtocolError) [] []) /\
   (forall en, rq_acc rq = Some en ->
      (rq_mod rq <> md_name md -> o = fail c (ESecop NoSuchModule) [] []) /\
      (rq_mod rq = md_name md -> (forall cm, lookup_export md en <> Some (ACmd cm)) ->
@@ -187,6 +187,16 @@ Theorem C04_history_call_values : forall E hook md, wf_md md -> names_unique md 
              match c_arg cm with Some ad => in_setb ad w = true | None => w = PTuple [] end.
 Proof. intros E hook md. exact (history_call_values E hook md). Qed.
 
+(* demo objects *)
+Definition E0 : pyenv := {| int_of := []; b64_of := [] |}.
+Definition no_hooks : nat -> pyval -> cache -> hres := fun _ _ _ => HNone.
+Definition s_m : str := [109%N].
+Definition s_a : str := [97%N].
+Definition s__a : str := [95%N; 97%N].
+Definition p_a (cks : list check) : param :=
+  {| p_name := s_a; p_export := Some s__a; p_dt := TInt 0 10; p_readonly := false; p_constant := false;
+     p_haswrite := true; p_checks := cks |}.
+
 (* non-vacuity: a module with a : int 0..10 (write method, generated limit check) and a_max; the limit is moved to 4,
    then 5 is refused with RangeError without touching anything, 4 reaches the driver exactly once *)
 Definition s_amax : str := s_a ++ s_max.
@@ -211,10 +221,19 @@ Proof.
   - intros p [H|[H|[]]]; injection H as <-; eexists; split; vm_compute; reflexivity.
 Qed.
 
+(* regression of the repaired defects: with a_limits = (0, 10) AND a_min = 5 the value 3 is refused; "do m" is a
+   protocol error *)
+Example C04_demo_both_kinds :
+  check_limits s_a (PInt 3) [(s_a ++ s_limits, PTuple [PInt 0; PInt 10]); (s_a ++ s_min, PInt 5)] = Err ERange /\
+  check_limits s_a (PInt 7) [(s_a ++ s_limits, PTuple [PInt 0; PInt 10]); (s_a ++ s_min, PInt 5)] = Ok tt /\
+  o_reply (handle E0 no_hooks demo_md [] {| rq_act := ADo; rq_mod := s_m; rq_acc := None; rq_data := PNone; rq_drv := DNone |})
+    = Some ProtocolError.
+Proof. vm_compute. repeat split. Qed.
+
 Print Assumptions C04_source_facts.
 Print Assumptions C04_change_safe.
 Print Assumptions C04_checks_respected.
-Print Assumptions C04_limits_respected_except_both_kinds.
+Print Assumptions C04_limits_respected.
 Print Assumptions C04_limits_respected_int.
 Print Assumptions C04_check_refusal_justified.
 Print Assumptions C04_change_refused.
@@ -225,10 +244,8 @@ Print Assumptions C04_error_clean_except_unexportable.
 Print Assumptions C04_error_clean_exportable.
 Print Assumptions C04_success_announced.
 Print Assumptions C04_do_safe.
-Print Assumptions C04_do_refused_except_missing_colon.
+Print Assumptions C04_do_refused.
 Print Assumptions C04_do_clean.
 Print Assumptions C04_history_invariant.
 Print Assumptions C04_history_write_values.
 Print Assumptions C04_history_call_values.
-Print Assumptions C04_refuted_do_specifier_without_colon.
-Print Assumptions C04_refuted_limits_shadow.
